@@ -47,3 +47,41 @@ Example C14_examples :
   code_of ("ldi r16, 31" ++ nl) = code_of ("ldi r16, 037" ++ nl) /\
   code_of ("ldi r16, 31" ++ nl) = Some [15; 225]%N.
 Proof. vm_compute. repeat split; reflexivity. Qed.
+
+(** Radix (Proofs/RadixProofs.v).  For every value k below 2^63 and every choice of letter case for each digit, the
+    texts  $hex, 0xhex, 0bbinary, 0octal  and the decimal text of k - followed by anything that is not an identifier
+    character - are all read by the number rule of the grammar as k: the radix a number is written in, and the case of
+    its hexadecimal digits, never change its value. *)
+Require Import AvraV.Model.Grammar AvraV.Model.Show AvraV.Model.Climb AvraV.Proofs.RadixProofs.
+Theorem C14_radix : forall k rest up, (k < i64_limit)%N -> hd_ok (fun c => negb (is_idch c)) rest = true ->
+  num_parse (lit "$" ++ render_base 16 up k ++ rest) = Some (k, rest) /\
+  num_parse (lit "0x" ++ render_base 16 up k ++ rest) = Some (k, rest) /\
+  num_parse (lit "0b" ++ render_base 2 up k ++ rest) = Some (k, rest) /\
+  num_parse (lit "0" ++ render_base 8 up k ++ rest) = Some (k, rest) /\
+  num_parse (show_N k ++ rest) = Some (k, rest).
+Proof. exact radix_invariance. Qed.
+Print Assumptions C14_radix.
+Example C14_radix_example :
+  render_base 16 (fun _ => true) 48879 = lit "BEEF" /\ render_base 16 (fun _ => false) 48879 = lit "beef" /\ render_base 2 (fun _ => false) 5 = lit "101" /\ render_base 8 (fun _ => false) 8 = lit "10".
+Proof. vm_compute. repeat split; reflexivity. Qed.
+
+(** Blanks and parentheses in expressions (Proofs/ClimbProofs.v [drender_parses], instance in Proofs/ExprRoundTrip.v).
+    A decorated tree [dcexpr] records, besides the expression, a string of blanks at every place where the grammar
+    skips them (before and after a binary operator, inside parentheses on both sides, between a function name and
+    its parenthesis) and any number of parenthesis pairs around any sub-expression; [dwfe] demands only that the
+    blank strings consist of spaces / tabs and that an operator binding more loosely than its position allows stands
+    inside parentheses.  THEOREM: whatever blanks and redundant parentheses are written, the text parses to the same
+    expression ([erase_e] forgets the decoration) - alone, and followed by any neutral text. *)
+Require Import AvraV.Proofs.ClimbProofs AvraV.Proofs.ExprRoundTrip.
+Theorem C14_expression_blanks_and_parentheses : forall d, dwfe 0 d -> parse_expr (drender_e d) = Some (conv (erase_e d)).
+Proof. exact surface_roundtrip. Qed.
+Theorem C14_expression_blanks_in_context : forall d rest, dwfe 0 d -> neutral_rest rest ->
+  expr_rule (drender_e d ++ rest) = Some (conv (erase_e d), rest).
+Proof. exact surface_roundtrip_ctx. Qed.
+Print Assumptions C14_expression_blanks_and_parentheses.
+Example C14_blanks_example :
+  let sp := lit "  " in let tab := [Ascii.ascii_of_N 9] in
+  let d := DB BMul (DP sp (DB BAdd (DNum 1) tab [] (DId (lit "x"))) []) [] sp (DF (lit "low") sp [] (DP [] (DNum 2) tab) sp) in
+  drender_e d = (lit "(" ++ sp ++ lit "1" ++ tab ++ lit "+x)*" ++ sp ++ lit "low" ++ sp ++ lit "((2" ++ tab ++ lit ")" ++ sp ++ lit ")")%list /\
+  erase_e d = EB BMul (EB BAdd (ENum 1) (EId (lit "x"))) (EF (lit "low") (ENum 2)).
+Proof. vm_compute. split; reflexivity. Qed.
